@@ -3,7 +3,7 @@
 use super::IpVersion;
 use crate::{
     bencode,
-    message::{Message, TransactionId},
+    message::{Message, MessageBody, TransactionId},
     SocketTrait,
 };
 use async_trait::async_trait;
@@ -76,6 +76,13 @@ impl Socket {
             let (size, addr) = r?;
             match bencode::decode::<Message>(&buffer[0..size]) {
                 Ok(message) => {
+                    // Only responses and errors can conclude a pending exchange. A request is
+                    // always for the handler, even when it happens to come from an address we
+                    // are waiting on and to carry the transaction id of our own request.
+                    if matches!(message.body, MessageBody::Request(_)) {
+                        return Ok((message, addr));
+                    }
+
                     if let Some(responded) = self
                         .transactions
                         .lock()
